@@ -3,12 +3,17 @@ import GN.Util.Format
 /-! Line protocol for C19.
 `C19 FMT <fmt|U> <k> (s d j)^k => <outhex>`
 `C19 CON <ncalls> (<method> <fmt|U> <k> (s d j)^k)^ncalls => <n> (<Sink> <hex>)^n`
-strings are UTF-8 in hex, "-" is the empty string, U = undefined / absent. -/
+strings are UTF-8 in hex, "-" is the empty string, U = undefined / absent; a rendering `!` means that this conversion of
+this argument throws (cyclic object for %j, Symbol for %d, a throwing toString …): a call that needs it throws. -/
 
 namespace GN.Driver.C19
 open GN GN.Util
 
+/-- stands for "this conversion throws"; no real rendering contains U+0001 -/
+def throwMark : List Char := [Char.ofNat 1, 'T', 'H', 'R', 'O', 'W', Char.ofNat 1]
+
 def hexToChars (s : String) : Option (List Char) := do
+  if s == "!" then return throwMark
   let bs ← parseHexBytes s
   let str ← String.fromUTF8? (ByteArray.mk bs.toArray)
   pure str.toList
@@ -54,7 +59,10 @@ def handle (toks : List String) : String :=
       match parseRendered rest k with
       | some (args, "=>" :: impl) =>
         let f := f.getD []
-        verdict (charsToHex (format f args)) (charsToHex (formatSpec f args)) (" ".intercalate impl)
+        -- the call throws exactly when the text it would build uses a conversion that throws
+        let render (r : List Char) : String :=
+          if r.contains (Char.ofNat 1) then "THROW" else charsToHex r
+        verdict (render (format f args)) (render (formatSpec f args)) (" ".intercalate impl)
       | _ => "BADLINE"
     | _, _ => "BADLINE"
   | "CON" :: n :: rest =>
